@@ -93,6 +93,74 @@ def check_query_case(ctx, ast, doc, text, cls, *, extra=None, env=None, nontrivi
     return True
 
 
+def check_interleaved(ctx, ast, text, runs, cls, *, env=None, keys_prefix="~"):
+    """ONE compiled query evaluated lazily over several (document, filter context) pairs at once: the iterators are
+    advanced in turn (round robin, then in a seeded random order), and through asyncio tasks over lazily loaded
+    containers; each must list exactly what the model lists for ITS document and context.  `runs` = [(doc, extra)]."""
+    import asyncio
+    import random
+
+    import jsonpath
+
+    env = env or jsonpath.DEFAULT_ENV
+    comp = impl.call(env.compile, text)
+    if not comp.ok:
+        return True
+    models = []
+    for doc, extra in runs:
+        try:
+            models.append(ref.eval_query(ast, doc, extra=extra, keys_prefix=keys_prefix))
+        except ref_regex.Unsupported:
+            return True
+    case = {"class": cls, "interleaved": True, "ast": ast, "text": text, "runs": [[d, e] for d, e in runs]}
+    rnd = random.Random(ctx.rng.random())
+    for order in ("round-robin", "random"):
+        ctx.evaluation()
+        its = [iter(comp.value.finditer(d, **({"filter_context": e} if e is not None else {}))) for d, e in runs]
+        got = [[] for _ in runs]
+        live = list(range(len(runs)))
+        err = None
+        while live and err is None:
+            seq = list(live) if order == "round-robin" else [rnd.choice(live)]
+            for i in seq:
+                try:
+                    m = next(its[i], None)
+                except Exception as e:  # noqa: BLE001
+                    err = "%s: %s" % (type(e).__name__, e)
+                    break
+                if m is None:
+                    live.remove(i)
+                else:
+                    got[i].append((tuple(m.parts), m.obj, m.path))
+        ctx.count("interleaved_lazy_evaluations", len(runs))
+        for i, g in enumerate(got):
+            diff = err or impl.nodes_equal(g, models[i])
+            if diff:
+                alt = ref.eval_query(ast, runs[i][0], extra=runs[i][1], keys_prefix=keys_prefix, order="bfs")
+                if err is None and impl.nodes_equal(g, alt) is None:
+                    continue
+                ctx.violation("interleaved-evaluations-of-one-compiled-query-differ-from-the-model:%s" % cls, case, {"text": text, "order": order, "evaluation": i, "diff": diff, "impl": impl.brief_impl(g), "model": impl.brief(models[i])})
+                return False
+    # the same through the async API, gathered, over containers whose getters yield
+    from checks.c08 import Plan, unwrap, wrap
+
+    async def one(d, e):
+        plan = Plan({}, random.Random(rnd.random()), None)
+        it = await comp.value.finditer_async(wrap(d, plan), **({"filter_context": e} if e is not None else {}))
+        return [(tuple(m.parts), canon(unwrap(m.obj))) async for m in it]
+
+    async def all_():
+        return await asyncio.gather(*[one(d, e) for d, e in runs])
+    ga = impl.call(lambda: asyncio.run(all_()))
+    ctx.count("gathered_async_evaluations", len(runs))
+    for i in range(len(runs)):
+        want = sorted((tuple(loc), canon(v)) for loc, v in models[i])
+        if not ga.ok or sorted(ga.value[i]) != want:
+            ctx.violation("gathered-async-evaluations-of-one-compiled-query-differ-from-the-model:%s" % cls, case, {"text": text, "evaluation": i, "got": ga.desc() if not ga.ok else repr(ga.value[i])[:300], "model": repr(want)[:300]})
+            return False
+    return True
+
+
 def _ctx_names_only(ast):
     """True iff every `_`-rooted query in the AST uses name selectors only (so that a mapping which does not list all
     its names when iterated must still give the same answers)."""
